@@ -41,16 +41,31 @@ META = dict(
                "tick starts the body of a Watch/Alarm only if it was activated before the tick, or forced before the tick, "
                "or its condition holds on that tick's tag values (all methods); a Watch outside every Alarm in a method "
                "without Call macro that is cancelled while not activated stays cancelled and never starts its body in "
-               "any continuation. The model is tied to the real PInterpreter by differential execution (per-tick flags, events incl. "
+               "any continuation; for EVERY method and Watch or Alarm: after an accepted cancel no tick starts the body in any "
+               "continuation for as long as the cancelled flag stays set (it is cleared only by a covering reset). "
+               "(8) End blocks marks, unregisters and removes from the interrupt map every registered Watch/Alarm below "
+               "EVERY block it ends; a block outside every Alarm (no Call macro) that has ended stays ended in every "
+               "continuation and no node below it is entered by any generator. (9) a Watch outside every Alarm and "
+               "every Block (no Call macro) is registered at most once over a whole run (registration budget never "
+               "grows), so at most one generator is ever created for it and that one starts the body at most once. "
+               "The model is tied to the real PInterpreter by differential execution (per-tick flags, events incl. "
                "scope_activate = body start, interrupt map).",
     level_note="PARTIAL where stated: 'at most once' is proved per registration (per interrupt generator) under the decidable "
                "hypotheses noCalls (no Call macro) and ordered (tree numbering); the literal reading 'a Watch body starts at "
                "most once per run' is kept as C04_full and refuted by a Watch inside an Alarm (every Alarm run declares the "
                "Watch anew; by design) - C04_counterexample. The whole-run 'never after cancel' theorem needs `stable` (no Call "
                "macro, Watch not inside an Alarm: no reset can clear the flag); for the other nodes only the per-step guards "
-               "(cancelled_blocks_activation, cancelled_sticks with the two reset exceptions) are proved. The block-end clause "
-               "is proved as step guards (no entry into an ended block; abort marks/unregisters; unregistered generators are "
-               "dropped), not as one trace theorem. 'Body runs' is read as: an "
+               "(cancelled_blocks_activation, cancelled_sticks with the two reset exceptions) are proved. The block-end clause is "
+               "proved at the level of body instructions (no node below an ended stable block is ever entered again); at "
+               "node level it is FALSE of the code as it is - C04_blockend_full / C04_blockend_counterexample, known finding "
+               "'registered-again-around-block-end': a Watch/Alarm whose handler is still served in the tick its block ends "
+               "registers itself again (handlers are served from a per-tick snapshot), is activated and reported "
+               "Started/Completed after the block ended although no instruction of its body runs; the oracle reports it under "
+               "that key only when a generator was registered for the node within [end-2, end+1] ticks, anything else is a "
+               "violation. Registered-at-most-once needs noBlockAbove for the same reason (the witness registers twice). Not "
+               "proved: that no generator other than the registered one starts a Watch's body (whole-run `bodyStarts <= 1` "
+               "even for a top-level Watch needs the global visited-once invariant), and 'never after cancel' for a cancelled "
+               "Alarm beyond 'until reset' (its own re-arm is the reset). 'Body runs' is read as: an "
                "instruction of the body starts. A Watch whose generator re-registers itself in the tick its block is ended "
                "still gets a 'Started'/'Completed' run-log entry afterwards although no instruction of its body runs "
                "(observed, reported, not counted as a violation). Trusted: Lean kernel, the correspondence harness, the "
@@ -69,6 +84,9 @@ REQUIRED = [
     "OPM.C04.scope_activate_matches_body_start", "OPM.C04.reachable_allQuiet",
     "OPM.C04.tick_starts_body_only_if_condition_or_force", "OPM.C04.tick_cancelled_never_starts",
     "OPM.C04.cancelled_watch_never_runs",
+    "OPM.C04.endBlocks_aborts_interrupts", "OPM.C04.ended_block_stays_closed",
+    "OPM.C04.cancelled_never_runs_until_reset", "OPM.C04.watch_registered_at_most_once",
+    "OPM.C04.C04_blockend_counterexample",
 ]
 COND_OPS = {"<": lambda a, b: a < b, "<=": lambda a, b: a <= b, "=": lambda a, b: a == b, "==": lambda a, b: a == b,
             "!=": lambda a, b: a != b, ">": lambda a, b: a > b, ">=": lambda a, b: a >= b}
@@ -465,9 +483,12 @@ def run(ctx: Check) -> int:
     ctx.rule = ("Streams against the shared M3 driver: (1) Watch/Alarm-heavy generated methods (nesting depth<=3, <=14 lines, "
                 "blocks with End block(s), thresholds, waits, UOD commands; every 3rd with macros) x schedules of 15-45 ticks "
                 "whose condition tags change on 45% of the ticks, with cancel/force requests aimed at Watch/Alarm nodes "
-                "(22%/tick), command completions, and a few requests on arbitrary nodes; (2) the same with malformed lines "
-                "(bad conditions, unknown tags, bad indentation); (3) exhaustive: 4 fixed methods (Watch; Alarm; two Watches "
-                "in a Block, one ending it; Alarm in a Block ended by the main thread) x all sequences of length L over "
+                "(22%/tick), command completions, and a few requests on arbitrary nodes; every 4th method is a nest of 2-3 Blocks "
+                "with Watches/Alarms registered in the outer Blocks (also inside Watch bodies) and End blocks / End block "
+                "issued from the innermost one, from the main flow or from a Watch; (2) the same with malformed lines "
+                "(bad conditions, unknown tags, bad indentation); (3) exhaustive: 6 fixed methods (Watch; Alarm; two Watches "
+                "in a Block, one ending it; Alarm in a Block ended by the main thread; nested Blocks with a Watch in the outer one "
+                "and End blocks in the inner one; a Watch declared inside a Watch body inside a Block) x all sequences of length L over "
                 "{tick T0/T1 in 00,10,01; cancel; force}. Non-trivial = some Watch/Alarm body started. Oracle stream: "
                 "generated and hand-made methods on the real Engine, 30-70 ticks, requests through "
                 "Engine.cancel_instruction/force_instruction.")
@@ -489,7 +510,7 @@ def run(ctx: Check) -> int:
     ex_lines, _, ex_mo = _m3(ctx, f"interp-m3-c04-exhaustive-len{length}", ex, "exhaustive:")
     _selftest(ctx, f"interp-m3-c04-exhaustive-len{length}", ex_lines, ex_mo)
     ctx.exhaustive = True
-    ctx.extra["exhaustive_scope"] = (f"4 methods x all {5 ** length} sequences of length {length} over "
+    ctx.extra["exhaustive_scope"] = (f"6 methods x all {5 ** length} sequences of length {length} over "
                                      "{tick(T0,T1)=00|10|01, cancel, force} after 4 warm-up ticks, 5 trailing ticks")
     # property oracle on the real engine
     ocases = [json.loads(p.read_text()) for p in sorted((Path(__file__).parent.parent / "corpus" / "C04").glob("oracle-*.json"))]
